@@ -1,12 +1,28 @@
 /-
   C19 — parse errors carry an in-bounds location and truncation is reported as EOF.
 
-  Full statements still open (worked on in LexprModel/Proofs/): `C19_location` (every syntax error's
-  line/column lies inside the input) and `C19_truncation` (a proper prefix of a parsable text fails with
-  an EOF-category error).  Proved here: the classification clause, for the whole error table as
+  Proved in LexprModel/Proofs/Locations.lean and PrefixDet.lean (imported here; namespace
+  Lexpr.Parse.Locations):
+   * location clause, complete: `C19_location` / `C19_location_strong` / `C19_location_api` /
+     `C19_location_history` — every syntax or EOF error raised by any entry point, any history of
+     calls, any source (faulty or not) carries the position after a genuine prefix of the input;
+     hence 1 ≤ line ≤ lines(input) and column ≤ length of that line (tighter than the property asks);
+   * EOF classification: `C19_eof_only_at_end` (eofList / eofVector / eofValue are raised only with the
+     input exhausted), `C19_eof_lexer`, `C19_syntax_at_end` (the seven syntax codes that can be raised
+     at the very end of the input); `C19_eof_only_at_end_false` — the literal converse is false
+     (`"\xZ" 1` reports eofString with input left) and is not part of C19;
+   * truncation clause: `C19_prefix_det`, `C19_prefix_det_ok` (an outcome reached with input left
+     does not depend on what follows), `C19_truncation_reads_all` (if the full text parses and a
+     prefix does not, the prefix was read to its end).  PARTIAL: the remaining step "... and the
+     error raised at the end is of EOF category" is carried by the prefix oracle on every proper
+     prefix of a corpus of single-datum texts from all sources; the Lean development found the one
+     site where it failed on the pinned tree (`#u8(#`, witness `C19_truncation_counterexample` at the
+     time, repaired in /repo, see DESIGN.md section 9).
+  Proved here: the classification clause, for the whole error table as
   regenerated from the code on this run, and the model's category function.
 -/
 import LexprModel.TablesCheck
+import LexprModel.Proofs.Locations
 namespace Lexpr
 namespace Parse
 
